@@ -164,6 +164,10 @@ func UnpackLayer(dest string, layer io.Reader, options *TarOptions) (size int64,
 			// just apply the metadata from the layer).
 			if fi, err := os.Lstat(path); err == nil {
 				if !fi.IsDir() || hdr.Typeflag != tar.TypeDir {
+					if rel == "." && hdr.Typeflag != tar.TypeDir {
+						// never trade the destination itself for a file, fifo or link
+						return 0, fmt.Errorf("cannot replace the destination %q with a non-directory", dest)
+					}
 					if err := os.RemoveAll(path); err != nil {
 						return 0, err
 					}
